@@ -49,13 +49,15 @@ def child(root, name, crash_at, mode, trace=None):
     return p.returncode, (p.stderr or "")[-600:]
 
 
-def audit(root, after_rerun=False, algo="md5"):
-    """the property's oracle on a store directory + state database"""
+def audit(root, after_rerun=False, algo="md5", st=False):
+    """the property's oracle on a store directory + state database (`st`: an already open hash-state to ask instead of opening
+    <root>/state; None: a store nobody keeps a hash-state for)"""
     from dvc_data.hashfile.state import State
 
     from .c13 import digest
 
     odb = os.path.join(root, "odb")
+    own = st is False
     problems = []
     present = {}
     for oid in stores.listing_of(odb):
@@ -70,10 +72,11 @@ def audit(root, after_rerun=False, algo="md5"):
         if after_rerun and not ok:
             problems.append({"why": "after re-running, an object does not match its name", "oid": oid, "size": len(b)})
     # hash-state entries that would hit must be right
-    st = State(root_dir=root, tmp_dir=os.path.join(root, "state"))
+    if own:
+        st = State(root_dir=root, tmp_dir=os.path.join(root, "state"))
     try:
         fs = stores.fs_local()
-        for oid, (ok, prot) in present.items():
+        for oid, (ok, prot) in present.items() if st is not None else ():
             p = os.path.join(odb, oid[:2], oid[2:])
             meta, hi = st.get(p, fs)
             # an entry that records the *actual* hash of mismatching bytes does not vouch for the object (the next
@@ -81,7 +84,8 @@ def audit(root, after_rerun=False, algo="md5"):
             if hi is not None and not ok and hi.value.split(".")[0] == oid.split(".")[0]:
                 problems.append({"why": "a hash-state entry vouches for an incomplete or mismatching object", "oid": oid, "entry": str(hi)})
     finally:
-        st.close()
+        if own:
+            st.close()
     # closure over valid objects
     valid = {o for o, (ok, _) in present.items() if ok}
     for o in valid:
@@ -93,8 +97,71 @@ def audit(root, after_rerun=False, algo="md5"):
     return problems, sorted(valid), sorted(present)
 
 
+# the handles through which somebody else looks at the store between the crash and the re-run: the store's owner (writable) and
+# a consumer that was told not to write to it (a read-only cache / a local remote opened for fetching)
+CONSUMER_HANDLES = [("writable", {}), ("read_only", {"read_only": True})]
+
+
+def consume(root, tag, cfg, ids, algo, after_rerun):
+    """Somebody else uses the store as it is *now* (right after the kill, or after the re-run) as the source of a fetch into
+    a cache of their own (with its own hash-state), through a handle of their own opened with `cfg`. They work on a snapshot
+    (modes and mtimes kept), so the crash point's own re-run still starts from what the kill left behind. Whatever the handle
+    is, the leftover of the interrupted operation must not get anywhere as an object: the consumer's cache and the store it read
+    obey the same oracle as the crashed store, and once the producer has re-run, fetching again converges."""
+    import logging
+
+    from dvc_data.hashfile.db.local import LocalHashFileDB
+    from dvc_data.hashfile.hash_info import HashInfo
+    from dvc_data.hashfile.state import State
+    from dvc_data.hashfile.transfer import transfer
+
+    croot = os.path.join(root, "consumer-" + tag)
+    served = os.path.join(croot, "served")
+    shutil.rmtree(served, ignore_errors=True)
+    os.makedirs(served)
+    if os.path.isdir(os.path.join(root, "odb")):
+        shutil.copytree(os.path.join(root, "odb"), os.path.join(served, "odb"))
+    else:
+        os.makedirs(os.path.join(served, "odb"))
+    os.makedirs(os.path.join(croot, "odb"), exist_ok=True)
+    fs = stores.fs_local()
+    st = State(root_dir=croot, tmp_dir=os.path.join(croot, "state"))
+    prev = logging.root.manager.disable
+    logging.disable(logging.CRITICAL)
+    try:
+        src = LocalHashFileDB(fs, os.path.join(served, "odb"), hash_name=algo, **cfg)
+        cache = LocalHashFileDB(fs, os.path.join(croot, "odb"), state=st, hash_name=algo)
+        # objects that are not there (yet) make the fetch fail or report them missing: that is fine, validity is what is audited
+        kind, res = safe_call(lambda: transfer(src, cache, {HashInfo(algo, o) for o in ids}, shallow=False))
+        mine = audit(croot, after_rerun=after_rerun, algo=algo, st=st)[0]
+    finally:
+        logging.disable(prev)
+        st.close()
+    when = "after the re-run" if after_rerun else "after the kill"
+    probs = []
+    for p in mine:
+        probs.append({**p, "where": "cache of a consumer that fetched from the store %s through a %s handle" % (when, tag), "fetch": str(res)[:160]})
+    for p in audit(served, algo=algo, st=None)[0]:
+        if after_rerun or "write-protected" in p["why"]:
+            probs.append({**p, "where": "the store %s, once a consumer has fetched from it through a %s handle" % (when, tag)})
+    if after_rerun:
+        have = stores.listing_of(os.path.join(croot, "odb"))
+        if kind != "ok" or getattr(res, "failed", None) or have != sorted(ids):
+            probs.append({"why": "after the producer's re-run, fetching again does not converge to the objects of an uninterrupted run",
+                          "where": "cache of a consumer (%s handle) that had also fetched right after the kill" % tag,
+                          "fetch": str(res)[:160], "cache": have, "uninterrupted": sorted(ids)})
+    return probs
+
+
+def _unvetted(root):
+    """does the store hold an unprotected file under an object's name?"""
+    odb = os.path.join(root, "odb")
+    return any(stat.S_IMODE(os.stat(os.path.join(odb, o[:2], o[2:])).st_mode) != 0o444 for o in stores.listing_of(odb))
+
+
 def one_point(args):
-    base, name, tree_items, n, mode = args
+    base, name, tree_items, n, mode = args[:5]
+    wanted = args[5] if len(args) > 5 else None
     tree = {tuple(k): bytes.fromhex(v) for k, v in tree_items}
     root = os.path.join(base, "%s-%d-%s" % (name, n, mode))
     try:
@@ -106,6 +173,13 @@ def one_point(args):
             return out
         algo = "md5-dos2unix" if name.endswith("legacy") else "md5"
         probs, valid, present = audit(root, algo=algo)
+        # a consumer is worth running where the kill left something nobody has vetted yet under an object's name (an unprotected
+        # file: the probe's empty leftover, a complete copy not yet protected); protected objects were audited just above and
+        # absent ones cannot be fetched
+        consumers = CONSUMER_HANDLES if wanted is not None and _unvetted(root) else []
+        for tag, cfg in consumers:
+            probs += consume(root, tag, cfg, wanted, algo, False)
+        out["consumers"] = len(consumers)
         rc2, err2 = child(root, name, -1, "none")
         out["rerun_rc"] = rc2
         if rc2 != 0:
@@ -113,6 +187,8 @@ def one_point(args):
             out["problems"] = probs
             return out
         probs2, valid2, present2 = audit(root, after_rerun=True, algo=algo)
+        for tag, cfg in consumers:
+            probs2 += consume(root, tag, cfg, wanted, algo, True)
         out["problems"] = probs + probs2
         out["final"] = valid2
         out["final_all"] = present2
@@ -166,12 +242,14 @@ def run_scenario(ctx, name, tree, pool):
     ctx.count("crash_points:%s=%d" % (name, total))
     ncopy = sum(1 for e in events if e[0] == "copy")
     items = [[list(k), v.hex()] for k, v in tree.items()]
-    jobs = [(base, name, items, n, "before") for n in range(total)]
-    jobs += [(base, name, items, n, "partial") for n, e in enumerate(events) if e[0] == "copy"]
+    # (ref_all: what an uninterrupted run leaves in the store = what a consumer of that store asks for)
+    jobs = [(base, name, items, n, "before", ref_all) for n in range(total)]
+    jobs += [(base, name, items, n, "partial", ref_all) for n, e in enumerate(events) if e[0] == "copy"]
     results = list(pool.map(one_point, jobs))
     for r in results:
         case = {**case0, "crash_at_event": r["n"], "mode": r["mode"], "event": events[r["n"]][:2] if r["n"] < total else None}
         ctx.case(case, nontrivial=True)
+        ctx.count("consumer_fetches_after_kill_and_after_rerun", 2 * r.get("consumers", 0))
         for p in r.get("problems", []):
             sig = None
             if name.endswith("legacy") and p.get("why", "").startswith("a directory object is present but a file it lists is not"):
@@ -264,7 +342,7 @@ def run(ctx):
         "is a crash point: a child process is killed with os._exit right before it (and, for data copies, after half of the bytes); "
         "the parent audits store and hash-state, re-runs the operation and compares with an uninterrupted run. Scenarios: stage + "
         "transfer into a local store with state, index save of nested directories, store-to-store transfer (plain and verifying "
-        "with a corrupt source), upload staging; one re-run of a transfer naming more than 1000 objects over the leftover of an interrupted probe. non-trivial = every crash point; distinct = (scenario, tree, event index, mode)"
+        "with a corrupt source), upload staging; one re-run of a transfer naming more than 1000 objects over the leftover of an interrupted probe. At every crash point that leaves an unprotected file under an object's name, before the re-run and again after it, a consumer fetches everything an uninterrupted run would have stored from a snapshot of the store into a cache of its own (own hash-state), once through a writable and once through a read_only handle: its cache and the store it read obey the same oracle, and its second fetch converges. non-trivial = every crash point; distinct = (scenario, tree, event index, mode)"
     )
     ctx.assumptions = ["a killed process keeps the order of completed system calls (no power loss, no torn rename)",
                        "SQLite transactions are atomic; the state transaction is one crash point"]
